@@ -23,6 +23,9 @@ class l100(PseudoNetCDFFile):
         try:
             lines = cls._getmeta(path)
             mynames = lines[-2].split()
+            # a blank or short line must not match by default
+            if len(mynames) < 8:
+                return False
             for chk, new in zip(_orignames[:8], mynames):
                 if chk != new:
                     return False
